@@ -259,6 +259,15 @@ func c12PrefixMaps() []prefixMap {
 		{Name: "nest-cpy-cpyTo", Per: map[string]string{"clone": "cpy", "deepcopy": "cpyTo"}},
 		{Name: "nest-comp-compose", Per: map[string]string{"compare": "comp", "compose": "compose"}},
 		{Name: "nest-chain", Per: map[string]string{"equal": "e", "hash": "ee", "compare": "eee", "clone": "eeee", "keys": "eeeee", "sort": "eeeeee"}},
+		// overrides of medium length that do not start with "derive" (neither the shortest nor the longest prefix),
+		// for plugins whose calls take another derive call as argument (second generation pass)
+		{Name: "mid-sortedBy", Per: map[string]string{"sort": "sortedBy"}},
+		{Name: "mid-sortedBy-mapKeysOf", Per: map[string]string{"sort": "sortedBy", "keys": "mapKeysOf"}},
+		{Name: "mid-equal-clone", Per: map[string]string{"equal": "isTheSameAs", "clone": "makeCopyOf", "fmap": "applyToEach"}},
+		// a plugin whose name ends with another plugin's name
+		{Name: "uncurry-only", Per: map[string]string{"uncurry": "unc"}},
+		{Name: "curry-then-uncurry", Per: map[string]string{"curry": "cur", "uncurry": "unc"}},
+		{Name: "contains-any-all", Per: map[string]string{"any": "some", "all": "every", "contains": "holds"}},
 		{Name: "both-global-and-override-with-derive", Global: "gen", Per: map[string]string{"equal": "deriveEqual", "compare": "deriveCmp"}},
 		{Name: "both-global-and-override", Global: "zz", Per: map[string]string{"hash": "hh", "unique": "zzUniq"}},
 	}
